@@ -186,6 +186,27 @@ def run_e2e(ctx):
                         if api == "recv_data" and (obs[0] != "ret" or obs[1] != p or obs[2] != 1):
                             ctx.violate("skip-passthrough", "bytes-changed", inp, "returns (1, payload)", str(obs),
                                         size=len(p) + len(frs))
+        # "nothing is delivered": after a rejected message the NEXT message is judged and delivered on its own
+        if not wf:
+            nxt = "n\u00e4chste".encode()
+            for frs in list(fragmentations(p, rnd, maxcuts=2, limit=3)):
+                stream = b""
+                for i, fr in enumerate(frs):
+                    stream += simnet.srv_frame(1 if i == 0 else 0, fr, fin=1 if i == len(frs) - 1 else 0)
+                stream += simnet.srv_frame(1, nxt[:3], fin=0) + simnet.srv_frame(0, nxt[3:]) + simnet.srv_frame(2, b"\x00\xff")
+                ws, sock = simnet.make_ws([("chunk", stream)], mask_key=b"abcd")
+                obs = []
+                for _ in range(3):
+                    try:
+                        r = ws.recv_data()
+                        obs.append((r[0], bytes(r[1])))
+                    except Exception as e:  # noqa
+                        obs.append(common.canon_exc(e))
+                ctx.case(key=("after-reject", p, len(frs)), nontrivial=True, cls=f"e2e:after-rejected-message:frags={min(len(frs), 4)}")
+                inp = {"op": "ill-formed text, then a text and a binary message", "payload": p.hex(), "fragments": [f.hex() for f in frs]}
+                if obs[0] not in ("PAYLOAD", "PROTO") or obs[1:] != [(1, nxt), (2, b"\x00\xff")]:
+                    ctx.violate("text-delivered-iff-wellformed", "rejected-message-leaks-into-the-next", inp,
+                                f"PAYLOAD, then (1, {nxt!r}), (2, b'\\x00\\xff')", str(obs), size=len(p) + len(frs))
         # close reason, under every class of status code that may appear on the wire
         for skip, code in itertools.product((False, True), (1000, 1001, 1011, 3000, 3999, 4000, 4999)):
             body = code.to_bytes(2, "big") + p
